@@ -84,6 +84,15 @@ mod int_array_freelist;
 /// on demand direct from the OS (via mmap).
 mod raw_memory_freelist;
 
+/// Re-exports of the private free-list modules for the external verification harnesses (see `crate::verif_hooks`).
+#[cfg(any(kani, mmtk_verif))]
+pub mod verif_hooks_freelist {
+    pub use super::freelist::{FreeList, FAILURE, MAX_HEADS, MAX_UNITS};
+    pub use super::int_array_freelist::IntArrayFreeList;
+    pub use super::raw_memory_freelist::verif_hooks as raw;
+    pub use super::raw_memory_freelist::RawMemoryFreeList;
+}
+
 pub use self::address::Address;
 pub use self::address::ObjectReference;
 pub use self::opaque_pointer::*;
